@@ -1,7 +1,7 @@
 (* C11 — column and table slices keep their structural invariants.  Statements only; proofs in
    CsFacts.v and SliceFacts.v.  The payload type V of a caller-built slice is the identity of a
    value array (a handle): "the very same array" is equality of payloads. *)
-From Sbdf Require Import Imp ImpCall Gen.Prog ImpBase ImpFactsCap ImpFactsCells ImpFactsSlice.
+From Sbdf Require Import Imp ImpCall Gen.Prog ImpBase ImpFactsCap ImpFactsCells ImpFactsSlice ImpFactsRelease.
 From Coq Require Import List.
 From Sbdf Require Import Slice CsFacts SliceFacts MdFacts.
 
@@ -102,3 +102,13 @@ Proof.
   intros. split; [eapply va_row_cnt_source; eassumption|eapply cs_row_cnt_source; eassumption].
 Qed.
 Print Assumptions C11_source_row_counts.
+
+Theorem C11_source_ts_create : forall k sx m h hb,
+  exists f0, forall f, (f0 <= f)%nat -> exists fin,
+    callC prog_env f prog_sbdf_ts_create [VCell hb 0; tok] m k sx h =
+      OReturn (VInt (if k =? 0 then SBDF_ERROR_OUT_OF_MEMORY else SBDF_OK)) fin /\ inb fin = m /\
+    (if k =? 0 then Imp.lookup cells_var (vars fin) = Some (VHeap h)
+     else Imp.lookup cells_var (vars fin) = Some (VHeap (h ++ [Some [VCell hb 0; VInt 0; VNull; VInt 0]])) /\
+          Imp.lookup "*out"%string (vars fin) = Some (VCell (List.length h) 0)).
+Proof. exact ts_create_source. Qed.
+Print Assumptions C11_source_ts_create.
